@@ -31,6 +31,15 @@ theorem cellSize_dvd_nCellsMax (q : Qty) (w d : Nat) : q.cellSize w d ∣ q.nCel
 
 end Qty
 
+theorem validB_iff (q : Qty) (w d : Nat) (rs : List Rng) : validB q w d rs = true ↔ Valid q w d rs := by
+  unfold validB Valid
+  rw [Bool.and_eq_true, Bool.and_eq_true, canonB_iff]
+  have h1 : boundedByB (q.nCellsMax w) rs = true ↔ BoundedBy (q.nCellsMax w) rs := by
+    simp [boundedByB, BoundedBy, List.all_eq_true]
+  have h2 : alignedB (q.cellSize w d) rs = true ↔ Aligned (q.cellSize w d) rs := by
+    simp [alignedB, Aligned, List.all_eq_true, Nat.dvd_iff_mod_eq_zero]
+  rw [h1, h2, and_assoc]
+
 /-- A MOC valid at depth `d` is valid at any deeper declared depth. -/
 theorem Valid.deeper {q : Qty} {w d d' : Nat} {l : List Rng} (h : Valid q w d l) (hd : d ≤ d') :
     Valid q w d' l :=
